@@ -14,7 +14,7 @@ ID = "C20"
 LEVEL = "exploration"
 TECHNIQUE = "Hypothesis-generated prediction matrices / id arrays / posterior samples compared with direct loop-based recomputations of every metric"
 RULE = (
-    "prediction matrices (1..12 experiments x 1..9 samples) of finite floats with chain labellings of unequal chain lengths or one chain (labels 0-based, 1-based, with gaps or negative; columns grouped by chain or interleaved), unicode sample names; evaluations of production size (200..2049 experiments x 30..300 samples, fixed 700x300, 1025x64, 65537x1, 3x65537; thorough also 4100x257, 70001x16) against exactly summed definitions; "
+    "prediction matrices (1..12 experiments x 1..9 samples) of finite floats with chain labellings of unequal chain lengths or one chain (labels 0-based, 1-based, with gaps or negative; columns grouped by chain or interleaved), unicode sample names; evaluations of production size (200..2049 experiments x 30..300 samples, fixed 700x300, 1025x64, 65537x1, 3x65537; thorough also 4100x257, 70001x16 and two matrices of more than 2**24 entries: 300007x64, 5592410x3) against exactly summed definitions; "
     "id arrays of arity 2 and 3 with repeated single-agent measurements, control in any column and missing single-agent measurements; synergy on arity 2 with "
     ">=1 non-control per row, strict on/off; similarity matrix for 2..4 samples and 2..5 mapping entries with additive posterior samples. Non-trivial = unequal "
     "chain lengths, a repeated single-agent measurement, or a missing one, or a production-size evaluation. distinct = distinct case JSON."
@@ -107,7 +107,7 @@ def strategy(tier):
 
 
 def exhaustive(tier):
-    for e, t in [(700, 300), (1025, 64), (65537, 1), (3, 65537)] + ([(4100, 257), (70001, 16)] if tier != "quick" else []):
+    for e, t in [(700, 300), (1025, 64), (65537, 1), (3, 65537), (300007, 64)] + ([(4100, 257), (70001, 16), (2**24 // 3 + 5, 3), (2**25 // 7 + 3, 7)] if tier != "quick" else []):
         yield {"kind": "evaluation_big", "E": e, "T": t, "n_chains": 3 if t >= 3 else 1, "seed": e + t}
 
 
@@ -183,20 +183,30 @@ def _check_evaluation_big(case):
     P += 0.3 * ch[None, :]
     me = ModelEvaluation(predictions=P.copy(), observations=y.copy(), chain_ids=ch.copy(), sample_names=np.array(["s%d" % (i % 7) for i in range(E)]))
     sq = (P - y[:, None]) ** 2
-    mse = math.fsum(sq.ravel().tolist()) / (E * T)
-    per_e = [math.fsum(row) / T for row in sq.tolist()]
-    mbar = math.fsum(per_e) / E
-    var_e = math.fsum((x - mbar) ** 2 for x in per_e) / E
-    chain_mses = []
-    for c in sorted(set(ch.tolist())):
-        cols = np.where(ch == c)[0]
-        chain_mses.append(math.fsum(sq[:, cols].ravel().tolist()) / (E * len(cols)))
+    if E * T > 2_000_000:
+        # (very large matrices: extended-precision numpy reductions instead of exact Python sums)
+        ld = np.longdouble
+        mse = float(np.sum(sq, dtype=ld) / (E * T))
+        per_e_arr = np.sum(sq, axis=1, dtype=ld) / T
+        per_e = per_e_arr.astype(float).tolist()
+        mbar = float(np.sum(per_e_arr) / E)
+        var_e = float(np.sum((per_e_arr - np.sum(per_e_arr) / E) ** 2) / E)
+        chain_mses = [float(np.sum(sq[:, np.where(ch == c)[0]], dtype=ld) / (E * int(np.sum(ch == c)))) for c in sorted(set(ch.tolist()))]
+    else:
+        mse = math.fsum(sq.ravel().tolist()) / (E * T)
+        per_e = [math.fsum(row) / T for row in sq.tolist()]
+        mbar = math.fsum(per_e) / E
+        var_e = math.fsum((x - mbar) ** 2 for x in per_e) / E
+        chain_mses = []
+        for c in sorted(set(ch.tolist())):
+            cols = np.where(ch == c)[0]
+            chain_mses.append(math.fsum(sq[:, cols].ravel().tolist()) / (E * len(cols)))
     cbar = math.fsum(chain_mses) / len(chain_mses)
     var_c = math.fsum((x - cbar) ** 2 for x in chain_mses) / len(chain_mses)
     require(_close(me.mse(), mse), "mse.large", lambda: "%d experiments x %d samples: mse %r, direct %r" % (E, T, me.mse(), mse))
     require(_close(me.mse_variance(), var_e), "mse_variance.large", lambda: "%d x %d: mse_variance %r, variance across experiments of the per-experiment MSE %r" % (E, T, me.mse_variance(), var_e))
     require(_close(me.inter_chain_mse_variance(), var_c, rtol=1e-8), "inter_chain_mse_variance.large", lambda: "%d x %d: inter-chain variance %r, variance of per-chain MSEs %r" % (E, T, me.inter_chain_mse_variance(), var_c))
-    require(_close(me.mean_predictions, [math.fsum(row) / T for row in P.tolist()]), "mean_predictions.large", "mean_predictions is not the average over posterior samples")
+    require(_close(me.mean_predictions, (np.sum(P, axis=1, dtype=np.longdouble) / T).astype(float) if E * T > 2_000_000 else [math.fsum(row) / T for row in P.tolist()]), "mean_predictions.large", "mean_predictions is not the average over posterior samples")
     return {"nontrivial": True, "labels": ["evaluation_big", "entries>=2^%d" % int(math.log2(E * T))]}
 
 
